@@ -317,6 +317,87 @@ func (p *Program) pathDef(fn *Func, id *ast.Ident, obj types.Object, depth int) 
 			}
 		}
 	}
+	// no assignment before the use on this path: a variable declared without a value still has its zero value
+	// (var err error / var deleted bool assigned only inside a closure that did not get there on this path)
+	for j := u - 1; j >= 0; j-- {
+		ev := evs[j]
+		if ev.Kind != EvAssign || ev.Fn == nil {
+			continue
+		}
+		for _, l := range ev.Lhs {
+			if i, ok := ast.Unparen(l).(*ast.Ident); ok && (ev.Fn.Info().Uses[i] == obj || ev.Fn.Info().Defs[i] == obj) {
+				return "", false // assigned on the path by an instance this function does not see through
+			}
+		}
+	}
+	if z, ok := zeroOfDeclared(fn, obj); ok {
+		return z, true
+	}
+	return "", false
+}
+
+// zeroOfDeclared: obj is declared by `var x T` without initial value in fn (or an enclosing function): the
+// canonical form of T's zero value.
+func zeroOfDeclared(fn *Func, obj types.Object) (string, bool) {
+	root := fn.root()
+	found := false
+	ast.Inspect(root.Body, func(n ast.Node) bool {
+		vs, ok := n.(*ast.ValueSpec)
+		if !ok || len(vs.Values) != 0 {
+			return !found
+		}
+		for _, nm := range vs.Names {
+			if root.Info().Defs[nm] == obj {
+				found = true
+			}
+		}
+		return !found
+	})
+	if !found {
+		return "", false
+	}
+	// only the captured-result idiom: the variable is assigned nowhere but inside function literals (an
+	// accumulator filled by the loops of the function itself keeps its name)
+	direct := false
+	var scan func(n ast.Node) bool
+	scan = func(n ast.Node) bool {
+		switch v := n.(type) {
+		case *ast.FuncLit:
+			return false
+		case *ast.AssignStmt:
+			for _, l := range v.Lhs {
+				if id, ok := ast.Unparen(l).(*ast.Ident); ok && (root.Info().Uses[id] == obj || root.Info().Defs[id] == obj) {
+					direct = true
+				}
+			}
+		case *ast.IncDecStmt:
+			if id, ok := ast.Unparen(v.X).(*ast.Ident); ok && root.Info().Uses[id] == obj {
+				direct = true
+			}
+		case *ast.UnaryExpr:
+			if id, ok := ast.Unparen(v.X).(*ast.Ident); ok && v.Op == token.AND && root.Info().Uses[id] == obj {
+				direct = true // its address is taken: written through a pointer
+			}
+		}
+		return true
+	}
+	ast.Inspect(root.Body, scan)
+	if direct {
+		return "", false
+	}
+	switch u := obj.Type().Underlying().(type) {
+	case *types.Basic:
+		switch {
+		case u.Info()&types.IsBoolean != 0:
+			return "false", true
+		case u.Info()&types.IsString != 0:
+			return `""`, true
+		case u.Info()&types.IsNumeric != 0:
+			return "0", true
+		}
+	case *types.Pointer, *types.Interface, *types.Slice, *types.Map, *types.Chan, *types.Signature:
+		return "nil", true
+	}
 	return "", false
 }
 
